@@ -145,7 +145,8 @@ def optimizer_spec(case, rng, ckpt):
         if case["tree_keep"] == "unrooted":
             tree = {"id": "tree", "type": "UnRootedTreeModel", "newick": "((A:0.11,B:0.23):0.37,C:0.41,D:0.05);", "taxa": "taxa", "keep_branch_lengths": True,
                     "branch_lengths": P("x", [0.0] * 5)}
-            prior = {"id": "prior", "type": "Distribution", "distribution": "torch.distributions.Exponential", "x": "x", "parameters": {"rate": 10.0}}
+            # (a prior that pulls the lengths towards 0.3: the unconstrained optimiser stays inside the support)
+            prior = {"id": "prior", "type": "Distribution", "distribution": "torch.distributions.Normal", "x": "x", "parameters": {"loc": 0.3, "scale": 0.5}}
         else:
             tree = {"id": "tree", "type": "TimeTreeModel", "newick": "((A:1.0,B:1.0):2.0,(C:1.5,D:1.5):1.5);", "taxa": "taxa", "keep_branch_lengths": True,
                     "internal_heights": P("x", [9.0] * 3)}
